@@ -17,13 +17,13 @@ def main():
     notes = open(os.path.join(mdir, 'notes.md')).read()
     notes = notes.replace('&amp;', '&')
     m = re.search(r'cp\s+\S*MUTATIONS/%s/demo/(\S+)\s+([\w/.-]+?)/?[\s`&]' % re.escape(mname), notes)
-    t = re.search(r'go test[^\n`]*?-run\s+[\'"]?(\S+?)[\'"`\s]', notes[m.end():] if m else '')
+    t = re.search(r'go test[^\n`]*?-run\s+[\'"]?([\w|^$.*]+)', notes[m.end():] if m else '')
     if not m or not t:
         print('cannot find demo command in notes.md'); return 2
     demo_file, pkg_dir = m.group(1), m.group(2)
     tg = re.search(r'-tags[ =](\w+)', notes)
     tags = ('-tags %s ' % tg.group(1)) if tg else ''
-    demo_cmd = 'cp MUTATIONS/%s/demo/%s %s/ && go test -count=1 -timeout 120s %s./%s -run %s' % (mname, demo_file, pkg_dir, tags, pkg_dir, t.group(1))
+    demo_cmd = 'cp MUTATIONS/%s/demo/%s %s/ && go test -count=1 -timeout 120s %s./%s -run \'%s\'' % (mname, demo_file, pkg_dir, tags, pkg_dir, t.group(1))
     copied = os.path.join(wt, pkg_dir, demo_file)
     def clean():
         sh('git checkout -- . && rm -f %s' % copied, wt)
